@@ -51,7 +51,9 @@ def fmt_node(node, style, depth=0):
         return '(' + var + ')'
     head = '(' + var
     if style.get('nl'):
-        sep = '\n' + ' ' * (style.get('indent', 3) * (depth + 1))
+        # 'inner_blank': blank lines inside a graph are plain whitespace
+        sep = ('\n\n' if style.get('inner_blank') and depth % 2 == 0 else '\n') + \
+            ' ' * (style.get('indent', 3) * (depth + 1))
     else:
         sep = style.get('pad', ' ')
     first = ' ' + parts[0] if parts[0].startswith('/') else sep + parts[0]
@@ -66,6 +68,8 @@ def fmt_graph(tree, meta, style):
     else:
         for k, v in meta:
             lines.append('# ::' + k + (' ' + v if v else ''))
+    if lines and style.get('meta_gap'):
+        lines.append('')          # a blank line between the comments and their graph
     lines.append(fmt_node(tree, style))
     return '\n'.join(lines)
 
